@@ -34,7 +34,7 @@ type grpcOp struct {
 	Cls    string `json:"cls"`
 	LeCode string `json:"lecode"`
 	LeErr  string `json:"leerr"` // the error value of the custom limit-exceeded classifier: plain | status (itself a gRPC status of another code) | wrapped
-	Ctx    string `json:"ctx"` // live | cancelled (while the wrapped call runs) | expired
+	Ctx    string `json:"ctx"`   // live | cancelled (while the wrapped call runs) | expired
 }
 
 // grpcRec is the shared recorder of the doubles of one intercepted operation.
